@@ -124,7 +124,7 @@ def _prune_cache(keep):
     except OSError:
         return
     ents.sort(key=lambda e: os.path.getmtime(os.path.join(CACHE, e)), reverse=True)
-    for e in ents[3:]:
+    for e in ents[12:]:
         if e != keep:
             shutil.rmtree(os.path.join(CACHE, e), ignore_errors=True)
 
@@ -237,8 +237,16 @@ def coq_make(clean=False, timeout=3000):
                 return False, out
         if clean:
             run(["make", "clean"], cwd=COQ, timeout=300)
-        rc, out = run(["make", "-j%d" % NCPU], cwd=COQ, timeout=timeout)
+        rc, out = run(["make", "-k", "-j%d" % NCPU], cwd=COQ, timeout=timeout)
         return rc == 0, out
+
+
+def vo_up_to_date(rel_v):
+    """Is theories/<...>.vo built and newer than all its dependencies?
+    (make -q on the target; run under the coq lock)."""
+    with flock("coq"):
+        rc, _ = run(["make", "-q", rel_v[:-2] + ".vo"], cwd=COQ, timeout=120)
+    return rc == 0
 
 
 def coqc(path, timeout=600, extra_q=()):
@@ -462,8 +470,11 @@ def proof_stage(res, module, theorems, refuted=()):
     res.coverage.  Returns (ok, detail).  ok=False means a proof obligation is
     broken (caller then searches for a failing input)."""
     bad = grep_forbidden()
-    ok, out = coq_make()
-    detail = {"make_ok": ok}
+    mk_ok, out = coq_make()
+    # the whole library must build for a clean bill, but a check is only
+    # *broken* by its own property file (and what it depends on) not building
+    ok = vo_up_to_date("theories/Properties/%s.v" % module)
+    detail = {"make_ok": mk_ok, "property_vo_up_to_date": ok}
     ass, rc, aout = ({}, 1, "")
     if ok:
         ass, rc, aout = print_assumptions(res.pid, module, list(theorems) + list(refuted))
